@@ -27,8 +27,10 @@ import (
 		"sort"
 	"strings"
 	"testing"
+	"time"
 
 	v3 "github.com/projectcalico/api/pkg/apis/projectcalico/v3"
+	metav1 "k8s.io/apimachinery/pkg/apis/meta/v1"
 	"pgregory.net/rapid"
 
 	"github.com/projectcalico/calico/libcalico-go/lib/backend/model"
@@ -94,6 +96,8 @@ type c19Scenario struct {
 	kindsRun []string
 	knownHits map[string]int
 	wholePool int // out of 10: ClaimAffinity / ReleaseAffinity target the whole v4 pool
+	bareAttrs bool // assigns may carry nil / empty attributes (C19 only: C22 reads the node attribute)
+	cooldown  int  // IPAMConfig.IPCooldownSeconds
 	pool4     string
 }
 
@@ -146,6 +150,44 @@ func (s *c19Scenario) drawHandle(t *rapid.T, allowNil, allowFresh bool) *string 
 	return nil
 }
 
+func (s *c19Scenario) drawAttrMode(t *rapid.T) int {
+	if !s.bareAttrs {
+		return 0
+	}
+	return []int{0, 0, 0, 1, 2}[rapid.IntRange(0, 4).Draw(t, "attrs")]
+}
+
+// maybeBare turns a quarter of the assignments into fully anonymous ones (no handle and no
+// attributes - both optional in the API), so that the combination is common rather than the
+// product of two independent rare draws.
+func (s *c19Scenario) maybeBare(t *rapid.T, o *c19Op) {
+	if s.bareAttrs && rapid.IntRange(0, 3).Draw(t, "anonymous") == 1 {
+		o.Handle = nil
+		o.AttrMode = 1 + rapid.IntRange(0, 1).Draw(t, "emptyAttrs")
+	}
+}
+
+// advanceTime moves every persisted ReleasedAt stamp d into the past.  The library only ever
+// compares ReleasedAt with now - IPCooldownSeconds, so this is "time passes" for the cooldown.
+func (s *c19Scenario) advanceTime(d time.Duration) {
+	bl, err := s.w.store.ReadList(model.BlockListOptions{})
+	if err != nil {
+		s.t.Fatalf("HARNESS-GAP: %v", err)
+	}
+	for _, kv := range bl.KVPairs {
+		_ = s.w.store.Mutate(kv.Key, func(v any) any {
+			b := v.(*model.AllocationBlock)
+			for i := range b.Attributes {
+				if b.Attributes[i].ReleasedAt != nil {
+					nt := metav1.NewTime(b.Attributes[i].ReleasedAt.Add(-d))
+					b.Attributes[i].ReleasedAt = &nt
+				}
+			}
+			return b
+		})
+	}
+}
+
 func (s *c19Scenario) liveAddrs() []string {
 	var out []string
 	for a := range s.model.live {
@@ -194,10 +236,14 @@ func (s *c19Scenario) drawOp(t *rapid.T, client int, id string) *c19Op {
 			o.Num4 = 1
 		}
 		o.Handle = s.drawHandle(t, true, true)
+		o.AttrMode = s.drawAttrMode(t)
+		s.maybeBare(t, o)
 	case c19AssignIP:
 		all := append(append([]string{}, s.v4...), s.v6...)
 		o.IP = rapid.SampledFrom(all).Draw(t, "ip")
 		o.Handle = s.drawHandle(t, true, true)
+		o.AttrMode = s.drawAttrMode(t)
+		s.maybeBare(t, o)
 	case c19ReleaseIPs:
 		n := rapid.IntRange(1, 4).Draw(t, "nrel")
 		liveA := s.liveAddrs()
@@ -291,7 +337,10 @@ func (s *c19Scenario) fail(format string, args ...any) {
 
 // checkLive asserts oracle part 2 on every definitely-live owner.
 func (s *c19Scenario) checkLive(when string) {
-	snap := s.w.snapshot()
+	if len(s.model.live) == 0 {
+		return
+	}
+	snap := s.w.snapshotBlocks()
 	for _, a := range s.liveAddrs() {
 		ow := s.model.live[a]
 		if s.uncertain(a, ow) {
@@ -353,6 +402,19 @@ func (s *c19Scenario) onFinish(o *c19Op) {
 		}
 		if len(o.IPs) > 0 {
 			s.classes["assigned"] = true
+			if o.Handle == nil && o.AttrMode != 0 {
+				s.classes["assign-no-handle-no-attrs"] = true
+				snap := s.w.snapshot()
+				for _, a := range o.IPs {
+					if b, _, _ := snap.lookup(a); b != nil {
+						for _, av := range b.Allocs {
+							if av.InCooldown {
+								s.classes["bare-assign-into-block-with-cooling-address"] = true
+							}
+						}
+					}
+				}
+			}
 		}
 		if o.Kind == c19AutoAssign && len(o.IPs) < o.Num4+o.Num6 {
 			s.classes["exhausted-or-partial"] = true
@@ -445,6 +507,9 @@ func (s *c19Scenario) checkHandles(when string, final bool) {
 
 // drain assigns every remaining address and checks none of them has a live owner.
 func (s *c19Scenario) drain() {
+	if s.cooldown > 0 {
+		s.advanceTime(time.Hour) // every cooldown has expired: whatever is not live is free again
+	}
 	for _, host := range s.hosts {
 		h := "drain-" + host
 		v4, v6, err := s.w.ic.AutoAssign(context.Background(), ipam.AutoAssignArgs{Num4: len(s.v4), Num6: len(s.v6), HandleID: &h,
@@ -484,13 +549,27 @@ func c19Run(t *rapid.T, rec *ev.Recorder, mix [c19NumKinds]int, fw c19FaultWeigh
 	if strict {
 		cfg.MaxBlocksPerHost = rapid.IntRange(0, 2).Draw(t, "maxBlocksPerHost")
 	}
+	// Half of the cases run with an IP cooldown: released addresses stay "allocated" to a
+	// ReleasedAt-only attribute entry until generated time advances let them expire.
+	cooldown := []int{0, 0, 10, 60}[rapid.IntRange(0, 3).Draw(t, "cooldown")]
+	cfg.IPCooldownSeconds = cooldown
 	w.setConfig(cfg)
 
 	s := &c19Scenario{t: t, w: w, hosts: hosts, clHost: clHost, strict: strict, mix: mix, classes: map[string]bool{}, knownHits: map[string]int{}, wholePool: 1,
+		bareAttrs: true, cooldown: cooldown,
 		model: c19Model{live: map[string]c19Owner{}}, v4: c19PoolAddrs(pool4), v6: c19PoolAddrs(c19PoolV6), pool4: pool4,
 		blocks4: c19BlockCIDRs(pool4, 30), blocks6: c19BlockCIDRs(c19PoolV6, 126)}
 	s.r = c19NewRunner(t, w, fw)
 	s.r.onFinish = s.onFinish
+	// Oracle part 2 after every step that wrote something, not only when an operation ends.
+	s.r.onStep = func(evs []memds.WriteEvent) {
+		for _, e := range evs {
+			if _, ok := e.Key.(model.BlockKey); ok { // only block writes can change an allocation
+				s.checkLive(fmt.Sprintf("step %d", s.r.step))
+				break
+			}
+		}
+	}
 	defer s.r.shutdown()
 
 	nOps := make([]int, 3)
@@ -503,6 +582,10 @@ func c19Run(t *rapid.T, rec *ev.Recorder, mix [c19NumKinds]int, fw c19FaultWeigh
 	for {
 		for c := 0; c < 3; c++ {
 			if (cur[c] == nil || cur[c].finished) && started[c] < nOps[c] {
+				if cooldown > 0 && rapid.IntRange(0, 5).Draw(t, "advanceTime") == 1 {
+					s.advanceTime(time.Duration(rapid.SampledFrom([]int{5, 45, 200}).Draw(t, "seconds")) * time.Second)
+					s.classes["time-advanced"] = true
+				}
 				o := s.drawOp(t, c, fmt.Sprintf("c%d.%02d", c, started[c]))
 				started[c]++
 				cur[c] = o
@@ -574,6 +657,9 @@ func c19Run(t *rapid.T, rec *ev.Recorder, mix [c19NumKinds]int, fw c19FaultWeigh
 	if strict {
 		s.classes["strict-affinity"] = true
 	}
+	if cooldown > 0 {
+		s.classes["cooldown"] = true
+	}
 	if pool4 != c19PoolV4 {
 		s.classes["small-pool"] = true
 	}
@@ -625,7 +711,7 @@ var c19Mix = [c19NumKinds]int{
 func TestVerifC19Scheduled(t *testing.T) {
 	ev.Quiet()
 	rec := ev.New("C19", "scheduled",
-		"3 clients on 2-3 hosts, pool 10.0.0.0/28 (/30 blocks) + fd00::/124 (/126 blocks); each client runs 1-N generated operations (AutoAssign v4/v6, AssignIP, ReleaseIPs with/without handle+sequence number, ReleaseByHandle, ClaimAffinity, ReleaseAffinity, ReleaseHostAffinities, RemoveIPAMHost) whose datastore calls are interleaved one at a time by a generated schedule, with a generated fault per call (spurious CAS conflict, transient error, crash before / after the write). Non-trivial = at least one CAS conflict (real or injected) was hit and at least two clients touched the same block; distinct = distinct (operation-kind sequence, class set)",
+		"3 clients on 2-3 hosts, pool 10.0.0.0/28 (/30 blocks) + fd00::/124 (/126 blocks); each client runs 1-N generated operations (AutoAssign v4/v6 and AssignIP with / without handle and with node / nil / empty attributes, ReleaseIPs with/without handle+sequence number, ReleaseByHandle, ClaimAffinity, ReleaseAffinity, ReleaseHostAffinities, RemoveIPAMHost) whose datastore calls are interleaved one at a time by a generated schedule, with a generated fault per call (spurious CAS conflict, transient error, crash before / after the write); IPCooldownSeconds is 0, 10 or 60 and generated time advances age the persisted ReleasedAt stamps; the live-owner oracle runs after every step that wrote, and all cooldowns are expired before the final drain. Non-trivial = at least one CAS conflict (real or injected) was hit and at least two clients touched the same block; distinct = distinct (operation-kind sequence, class set)",
 		"trusts verifkit/memds as a faithful compare-and-swap datastore (mirrors the etcdv3 backend: JSON round trip, per-key mod revision)",
 		"a crashed operation is modelled as: none of its later datastore calls has any effect",
 		"the library's own map-iteration order (ReleaseByHandle over blocks, handle decrement order) is not controlled; it only affects replay fidelity, not the oracle")
